@@ -42,6 +42,8 @@ def mutants():
     rf = os.path.join(env.VERIF, "selftest", "reverted_fixes.json")
     if os.path.exists(rf):
         for r in json.load(open(rf)):
+            if r.get("superseded_by"):
+                continue
             out.append({"name": "revert-" + r["commit"][:7], "revert": r["commit"], "property": r["properties"][0],
                         "also": r["properties"][1:], "kind": "reverted-fix"})
     return out
